@@ -25,6 +25,7 @@ CONSTANTS
     CompactAfter,  \* compaction requests are only issued after this many requests (generator bias; 0 in MC configs)
     DelFaultKinds, \* {} or SUBSET {"err", "cas", "die"}: a compaction may have one deletion fail / may be interrupted
     StreamBatch,   \* key-values per batch of a streamed range (300 in the code; 1 here makes every position a batch border)
+    ResetOnRestart,\* TRUE (the code): a worker that starts a partition over drops what it had collected
     StreamRestarts,\* FALSE (the code since D25): a worker whose iterator failed does not start over once a batch has been sent
     GenHist
 
@@ -217,6 +218,7 @@ StreamFaultInvariant ==
             LET s == StreamWithFault(Recs, R, StreamBatch, f, StreamRestarts) IN
             /\ NoDup(s.out)
             /\ (~s.err => s.out = whole)
+            /\ ListWithFault(Recs, R, f, ResetOnRestart) = whole
 
 \* ---- C07: compaction at R, interrupted after any number of deletions and with any single
 \* deletion failing (certain error => key skipped; failed compare => only that deletion),
